@@ -22,7 +22,10 @@ PROFILE_DYN = dict(call_dyn=30, call=8, get_item=10, del_item=4, set_value_dyn=6
 # then members / instances / bases taken away
 PROFILE_DYN_DELETE = dict(PROFILE_DYN, get_item=16, del_item=8, del_cells=10, new_cells=6,
                           set_formula=4, set_ref=5, remove_bases=6, add_bases=5, set_pf=2, del_space=2)
-PROFILES_DYN = {"dyn": PROFILE_DYN, "dyn-delete": PROFILE_DYN_DELETE}
+# the instances are built from a space OUTSIDE the parametrised space's tree (formula returning
+# {'base': R}), and R itself is edited: members, references, bases gained and lost
+PROFILE_DYN_OUTER = dict(PROFILE_DYN, add_bases=10, remove_bases=7, new_cells=5, del_cells=3, set_ref=12)
+PROFILES_DYN = {"dyn": PROFILE_DYN, "dyn-delete": PROFILE_DYN_DELETE, "dyn-outer": PROFILE_DYN_OUTER}
 
 
 class GenDyn(Gen):
@@ -31,21 +34,22 @@ class GenDyn(Gen):
         self.dyn_profile = PROFILES_DYN.get(profile, PROFILE_DYN)
         self.nested = False
         self.pps = None
+        self.force_outer = profile == "dyn-outer"
 
     def program(self):
         rng = self.rng
-        self.nested = rng.random() < 0.4
+        self.nested = rng.random() < 0.4 or self.force_outer
         sp = [["S"], ["P"], ["P", "C"]]
         if self.nested:
             sp.append(["P", "Q"])
         if rng.random() < 0.45:
             sp.append(["B"])           # a plain base for P
-        self.outer_base = self.nested and rng.random() < 0.5
+        self.outer_base = self.nested and (rng.random() < 0.5 or self.force_outer)
         if self.outer_base:
             sp.append(["R"])           # the nested ItemSpaces P[i].Q[k] replicate R, outside P's tree
-            if ["B"] not in sp and rng.random() < 0.7:
+            if ["B"] not in sp and (rng.random() < 0.7 or self.force_outer):
                 sp.append(["B"])       # ... and R may gain / lose B as a base later
-            if rng.random() < 0.6:
+            if rng.random() < 0.6 or self.force_outer:
                 sp.append(["T"])       # a top-level parametrised space whose instances T[i] are built from R
         self.deep = rng.random() < 0.35
         if self.deep:
@@ -104,9 +108,11 @@ class GenDyn(Gen):
         place = {"x": [["P"], ["B"]], "y": [["P"]], "z": [["P", "C"], ["P", "Q"], ["R"]], "w": [["S"]]}
         if ["R"] in sp:
             mir["refs"][("R",)]["s"] = {"v": ["int", rng.choice(INT_VALUES), [], ""], "mode": "auto"}
-            if ["B"] in sp and rng.random() < 0.6:
+            if ["B"] in sp and rng.random() < 0.8:
                 # B shadows the model-level g for whatever derives from it
                 mir["refs"][("B",)]["g"] = {"v": ["int", rng.choice(INT_VALUES), [], ""], "mode": "auto"}
+                if "g" not in mir["grefs"] and rng.random() < 0.8:
+                    mir["grefs"]["g"] = {"v": ["int", 70, [], ""]}
         derive_x = ["B"] in mir["bases"][("P",)] and rng.random() < 0.6   # P derives x from B
         for nm in names:
             for p in place[nm]:
@@ -164,6 +170,10 @@ class GenDyn(Gen):
                 continue
             lower = [c for c in ("x", "y", "z") if self.rank[c] < rk]
             if sp == ["R"]:
+                if "g" in self.mir["refs"].get(("B",), {}) and len(ops) == 1 and rng.random() < 0.5:
+                    # (the name whose meaning changes when R gains or loses the base B)
+                    ops.append(["read", ["g"]])
+                    continue
                 ops.append(["read", rng.choice([["s"], ["q"], ["g"], ["p"], ["_space", "s"]])])
                 continue
             oc = self.mir["refs"].get(("P", "C"), {}).get("oc") if sp == ["P", "C"] else None
@@ -445,16 +455,13 @@ class GenDyn(Gen):
         if not cand:
             return None
         t = self.rng.choice(cand)
+        if ["R"] in cand and self.rng.random() < 0.4:
+            t = ["R"]
         op = {"op": "add_bases", "s": t, "bs": [["B"]]}
         if t == ["R"] and (("P", "Q") in self.mir["pf"] and self.cur_pps() or ("T",) in self.mir["pf"]):
             # scenario: an instance built from R is evaluated, R gains the base, the same
             # instance is asked again (its own cells and one it must now derive from B)
-            st = [["i", "", self.key()], ["c", "Q", []], ["i", "", self.qkey()]]
-            root = ["P"]
-            if ("T",) in self.mir["pf"] and self.rng.random() < 0.6:
-                root, st = ["T"], [["i", "", [self.rng.choice(KEYS)]]]
-            calls = [{"op": "call", "c": [root, st, c], "args": self.rand_args(c), "sp": "pos"}
-                     for c in ("z", "x") if c in self.sigs]
+            calls = self.instance_calls()
             self.queue += [calls[0], op] + [dict(c) for c in calls]
             # (first an edit of R itself: its lazily refreshed namespace is then out of date
             #  when the instance is built and when the base is added)
@@ -468,11 +475,27 @@ class GenDyn(Gen):
                     "mode": "auto", "via": "attr"}
         return op
 
+    def instance_calls(self):
+        """Calls into one instance built from R: P[i].Q[k] or T[i]."""
+        st = [["i", "", self.key()], ["c", "Q", []], ["i", "", self.qkey()]]
+        root = ["P"]
+        if ("T",) in self.mir["pf"] and (self.rng.random() < 0.6 or not (("P", "Q") in self.mir["pf"] and self.cur_pps())):
+            root, st = ["T"], [["i", "", [self.rng.choice(KEYS)]]]
+        return [{"op": "call", "c": [root, st, c], "args": self.rand_args(c), "sp": "pos"}
+                for c in ("z", "x") if c in self.sigs]
+
     def mk_remove_bases(self):
         cand = [t for t in (["P"], ["R"], ["P", "C"]) if ["B"] in self.mir["bases"].get(tp(t), [])]
         if not cand:
             return None
-        return {"op": "remove_bases", "s": self.rng.choice(cand), "bs": [["B"]]}
+        t = self.rng.choice(cand)
+        op = {"op": "remove_bases", "s": t, "bs": [["B"]]}
+        if t == ["R"] and (("P", "Q") in self.mir["pf"] and self.cur_pps() or ("T",) in self.mir["pf"]):
+            # scenario: an instance built from R is evaluated, R loses the base, the instance is asked again
+            calls = self.instance_calls()
+            self.queue += [op] + [dict(c) for c in calls]
+            return calls[0]
+        return op
 
     def update(self, op, res, ev=None):
         if res != "ok":
